@@ -105,6 +105,11 @@ CHECKS["C14"] = ("exploration",
     "Generated graphs (chains, k-cycles, lasso, diamond, self loop, random) with run-identifier classes (equal, prefix, prefix of prefix, unrelated, derived, none), edge types file / http / remote-format stand-in / internal, mapped or same, feature restrictions, absolute/relative/dangling/second-candidate locations; entry opened locally, through RTDC_HTTP and through the stand-in. Termination: number of dataset constructions bounded by the graph's walk bound (deterministic cut, no wall clock). Isolation: every returned array carries the signature of a provider reachable over existing, permitted, identifier-matching edges; no local file is opened below a network format. Availability: features on accepted simple paths are readable and listed, others raise KeyError and are not listed. Exact comparisons. Exploration, not proof.",
     "S3/DCOR transports are not run (their only relevant behaviour, _local_basins_allowed = False for non-hdf5 formats, is exercised through a stand-in subclass and RTDC_HTTP on loopback); referrers without identifier are unspecified; byte-identical basin definitions excluded (cycles are cut by key).",
     "DESIGN.md §5 C14, notes/C14.md")
+CHECKS["C13"] = ("exploration",
+    "enumerated sweep (every corruption kind x variant, every mandatory key, every write path once and chained) + Hypothesis-generated closure / defect / corruption cases with an oracle on the reported violations",
+    "Closure: datasets with complete metadata through writer histories or dict export, chained through compress, repack, condense, export (filtered, basins, hierarchy child), split, join: every file without violations, a file and its compressed/repacked copy receive identical violation lists. Defect: metadata lacking a mandatory key / non-positive set-up values must be reported, identically for the copies. Corruption: one or two raw h5py corruptions (feature length, event count, ROI attributes, unknown feature, deleted key/section, non-enumerating index, channel/laser/samples-per-event contradictions, external links incl. dangling, virtual/external datasets, non-positive values) must each come back as a violation naming the affected object with matching category/section/key; check_dataset agrees with IntegrityChecker.check; verify_dataset exit codes; the checker must not raise. Exploration + exhaustive sweep of kinds.",
+    "Matching is on names and categories, never numbers; the 'same violations for the copy' clause is asserted for files dclab itself produced; write-path failures that belong to other properties are skipped and counted.",
+    "DESIGN.md §5 C13, notes/C13.md")
 NOT_APPLICABLE = {}
 
 def main():
